@@ -638,13 +638,13 @@ func init() {
 		Name: "csync-M5", Props: []string{"C01"}, MustFinish: true, ObsNames: stdObs,
 		Doc:   "Mutex: the release function of one Lock acquisition is called concurrently by two threads while a third thread Locks and a fourth TryLocks: a repeated release may not free another holder",
 		Quick: eng.Bounds{PB: 2}, Thorough: eng.Bounds{PB: 3},
-		Body:  mutexBody(false),
+		Body: mutexBody(false),
 	})
 	eng.Register(&eng.Scenario{
 		Name: "csync-M6", Props: []string{"C01"}, MustFinish: true, ObsNames: stdObs,
 		Doc:   "Mutex: as csync-M5 with a release function obtained from TryLock",
 		Quick: eng.Bounds{PB: 2}, Thorough: eng.Bounds{PB: 3},
-		Body:  mutexBody(true),
+		Body: mutexBody(true),
 	})
 	rwBody := func(write, viaTry bool) func() {
 		return func() {
@@ -721,12 +721,12 @@ func init() {
 		Name: "csync-L8", Props: []string{"C02", "C01"}, MustFinish: true, ObsNames: stdObs,
 		Doc:   "RWMutex: a reader holds behind a gate, a cancellable writer W waits, reader R2 queues behind W; then the holder releases and W's context is cancelled concurrently (W may be cancelled after R2 re-checked and went back to sleep): nobody may stay parked",
 		Quick: eng.Bounds{PB: 2}, Thorough: eng.Bounds{PB: 3},
-		Body:  body(false),
+		Body: body(false),
 	})
 	eng.Register(&eng.Scenario{
 		Name: "csync-L9", Props: []string{"C02", "C01"}, MustFinish: true, ObsNames: stdObs,
 		Doc:   "RWMutex: as csync-L8 with a writer as the initial holder",
 		Quick: eng.Bounds{PB: 2}, Thorough: eng.Bounds{PB: 3},
-		Body:  body(true),
+		Body: body(true),
 	})
 }
